@@ -8,6 +8,7 @@ package cl
 // evaluator zzRef (zz_verif_c01.go) gives the expected value, ordered trace and condition class.
 
 import (
+	"os"
 	"strconv"
 
 	"github.com/ohler55/slip"
@@ -70,6 +71,7 @@ var zzC07Carriers = []string{
 	"with-mutex-lock", // 51 (with-mutex-lock mu m HOLE m)
 	"values-arg",      // 52 (values m HOLE)
 	"return-value",    // 53 (return-from b0 HOLE)
+	"with-open-file",  // 54 (with-open-file (fs "/dev/null") (setq zzstream fs) m HOLE m)
 }
 
 const (
@@ -333,6 +335,8 @@ func (g *zzC07Gen) build(cs []int, ex int, cx zzC07Ctx, level int) slip.Object {
 		return zzL(S("values"), g.m(), hole(cx))
 	case "return-value":
 		return zzL(S("return-from"), S("b0"), hole(cx))
+	case "with-open-file":
+		return zzL(S("with-open-file"), zzL(S("fs"), slip.String("/dev/null")), zzL(S("setq"), S("zzstream"), S("fs")), g.m(), hole(cx), g.m())
 	}
 	g.invalid = true
 	return nil
@@ -398,7 +402,7 @@ var zzC07Findings = []zzC07Finding{
 		append(zzC07Keys([]string{"block"}, []string{"mid"}, []string{"go"}), zzC07Keys([]string{"lambda"}, []string{"mid"}, []string{"go"})...)...)},
 	{"C07-do-drops-named-return", []string{"do/stmt/ret-named-nonblock"}},
 	// ignore-errors, with-mutex-lock, recover and the cleanup forms of unwind-protect continue after an exit
-	{"C07-body-continues-after-exit", append(zzC07Keys([]string{"ignore-errors", "with-mutex-lock", "recover"}, []string{"mid"}, zzRG),
+	{"C07-body-continues-after-exit", append(zzC07Keys([]string{"ignore-errors", "with-mutex-lock", "recover", "with-open-file"}, []string{"mid"}, zzRG),
 		zzC07Keys([]string{"uwpcleanup"}, []string{"mid", "last"}, zzRG)...)},
 }
 
@@ -413,6 +417,45 @@ var zzC07Flags = []zzC07Flag{
 	{"C07-lambda-body-symbol-never-unbound", zzHLambdaSym},
 	{"C07-ignore-errors-misses-raw-condition", zzHIgnoreRaw},
 	{"C08-forward-call-drops-arguments", zzHFwdCall},
+}
+
+// zzFakeStream is what the stub of (*Open).openFile returns in the engine (which has no file
+// system): an object that counts how often it is closed.
+type zzFakeStream struct {
+	closed int
+}
+
+func (fs *zzFakeStream) String() string                          { return "#<zz-stream>" }
+func (fs *zzFakeStream) Append(b []byte) []byte                  { return append(b, "#<zz-stream>"...) }
+func (fs *zzFakeStream) Simplify() any                           { return "#<zz-stream>" }
+func (fs *zzFakeStream) Equal(other slip.Object) bool            { return fs == other }
+func (fs *zzFakeStream) Hierarchy() []slip.Symbol                { return []slip.Symbol{slip.Symbol("stream"), slip.TrueSymbol} }
+func (fs *zzFakeStream) Eval(s *slip.Scope, depth int) slip.Object { return fs }
+func (fs *zzFakeStream) Close() error {
+	fs.closed++
+	return nil
+}
+
+// zzStubOpenFile replaces (*Open).openFile in the engine: with-open-file then binds and must
+// close this object; everything with-open-file itself does (binding, body, deferred close) is the
+// real code.
+func zzStubOpenFile(f *Open, s *slip.Scope, args slip.List, depth int) slip.Object {
+	return &zzFakeStream{}
+}
+
+// zzAssertStreamClosed: the stream a with-open-file bound (saved in the global zzstream by the
+// program) has been closed exactly once: counted in the engine, natively a second close of the
+// real file must fail.
+func zzAssertStreamClosed(scope *slip.Scope) {
+	if !scope.Bound(slip.Symbol("zzstream")) {
+		return
+	}
+	switch ts := scope.Get(slip.Symbol("zzstream")).(type) {
+	case *zzFakeStream:
+		vrt.Assert(ts.closed == 1, "the stream opened by with-open-file was closed "+strconv.Itoa(ts.closed)+" times")
+	case *slip.FileStream:
+		vrt.Assert((*os.File)(ts).Close() != nil, "the file opened by with-open-file is still open after the program ended")
+	}
 }
 
 func zzHierarchyHas(h []slip.Symbol, class string) bool {
@@ -466,6 +509,7 @@ func zzC07Run(tmpl slip.Object, nlit int, maxIt int) {
 	if h := vrt.HeldLocks(); 0 <= h {
 		vrt.Assert(h == 0, "a mutex is still held after the program ended")
 	}
+	zzAssertStreamClosed(scope)
 	if want.ex != nil {
 		vrt.Assert(want.ex.kind == zzXError, "reference: exit escaped the program")
 		zzAssertTrace(run.sink, ref)
